@@ -330,6 +330,22 @@ func docClass(cls string) []byte {
 		}
 		b.WriteString("}")
 		return []byte(b.String())
+	case "escapes_ascii", "escapes_ascii_key":
+		// every ASCII code point spelled as a six-character unicode escape (valid JSON, unusual spelling)
+		var b strings.Builder
+		for i := 0; i < 0x80; i++ {
+			fmt.Fprintf(&b, `\u%04x`, i)
+		}
+		if cls == "escapes_ascii_key" {
+			return []byte(`{"` + b.String() + `":1}`)
+		}
+		return []byte(`{"a":"` + b.String() + `"}`)
+	case "escapes_upper":
+		// upper-case hex digits and the two-character escapes
+		return []byte(`{"a":"\u000A\u001F\u007F\u00E9\b\f\n\r\t\"\\\/"}`)
+	case "escapes_wide":
+		// boundaries of the UTF-8 encoding lengths, line separators, a surrogate pair, the last code point
+		return []byte(`{"a":"\u007f\u0080\u07ff\u0800\u2028\u2029\ud7ff\ue000\ufffd\uffff\ud83d\ude00\udbff\udfff"}`)
 	case "wellformed":
 		return []byte(`{"b":[1,2,{"c":null}],"a":"x","signatures":{"hs1":{"ed25519:1":"AAAA"}},"unsigned":{"age":1}}`)
 	}
